@@ -71,7 +71,7 @@ fn verif_grid() {
             }
         }
         // every pair of lines (partial sums near the ends of the range)
-        for i in 0..lines.len() { for j in 0..lines.len() { if (i + j + ai) % 5 != 0 { continue; }
+        for i in 0..lines.len() { for j in 0..lines.len() { if left_out(i + j + ai, 5) { continue; }
             let (query, two) = (format!("SELECT {} AS v FROM t", a), join_lines(&[lines[i], lines[j]]));
             g.case(&format!("agg-{}-pair-{}-{}", ai, i, j), move || match run_opts(DEF, &query, &[two], json_opts()) {
                 Outcome::Panic(p) => Err(format!("{} over lines {} and {} panicked: {}", query, i, j, p)), _ => Ok(()) });
